@@ -77,13 +77,13 @@ Ltac split_guards :=
   end.
 
 Ltac sem_op :=
-  intro_fin; rewrite ?(gen_try_new_eq (B:=FldR)); cbv zeta; cbn [bb bd bu ba];
+  gen_unfold; intro_fin; rewrite ?(gen_new_eq (B:=FldR)), ?(gen_try_new_eq (B:=FldR)); cbv zeta; cbn [bb bd bu ba];
   split_guards;
   try reflexivity;
   (f_equal; sem_vals).
 
 Theorem sem_projection_eq : forall x : @bop FldR, fin x -> g_projection (B:=FldR) x = bprojection x.
-Proof. intros x Hx; unfold g_projection, bprojection; intro_fin; sem_vals. Qed.
+Proof. intros x Hx; unfold g_projection, bprojection; gen_unfold; intro_fin; sem_vals. Qed.
 
 Theorem sem_mul_eq : forall x y : @bop FldR, fin x -> fin y -> g_mul (B:=FldR) eps x y = bmul eps x y.
 Proof. intros x y Hx Hy; unfold g_mul, bmul; sem_op. Qed.
